@@ -126,24 +126,27 @@ def rebind(orig, wrapper, prefix='pyerrors'):
 def tap_function(module, name, monitor, key=None):
     _require_guard()
     orig = getattr(module, name)
-    if hasattr(orig, '__vmon_orig__'):
-        raise RuntimeError('%s already tapped' % name)
+    stacked = hasattr(orig, '__vmon_orig__')     # taps stack: a second monitor wraps the first wrapper
     key = key or name
+    if stacked:
+        key = key + '#2' if key in events else key
     w = make_wrapper(orig, monitor, key)
     n = rebind(orig, w)
     if n == 0:
         setattr(module, name, w)
         _installed.append((module, name, orig, w))
-    _watch_code(orig, key)
+    if not stacked:
+        _watch_code(orig, key)
     return w
 
 
 def tap_method(cls, name, monitor, key=None):
     _require_guard()
     orig = cls.__dict__[name]
-    if hasattr(orig, '__vmon_orig__'):
-        raise RuntimeError('%s.%s already tapped' % (cls.__name__, name))
+    stacked = hasattr(orig, '__vmon_orig__')     # taps stack: a second monitor wraps the first wrapper
     key = key or '%s.%s' % (cls.__name__, name)
+    if stacked:
+        key = key + '#2' if key in events else key
     if not isinstance(orig, types.FunctionType):
         raise TypeError('only plain functions can be tapped: %s' % key)
     w = make_wrapper(orig, monitor, key)
@@ -152,7 +155,8 @@ def tap_method(cls, name, monitor, key=None):
         if cval is orig:
             setattr(cls, cname, w)
             _installed.append((cls, cname, orig, w))
-    _watch_code(orig, key)
+    if not stacked:
+        _watch_code(orig, key)
     return w
 
 
